@@ -82,7 +82,7 @@ def opDirw (old : Bool) (off0 hlinks xattr parent : Nat) (ents : List (List UInt
     let runs := dirEnd 8194 blk off es
     let bytes := (runs.map encodeRun).flatten
     let ref := (blk <<< 16) ||| off
-    let ino := createInode ref runs es.length hlinks xattr parent
+    let ino := createInodeCap (if old then none else some maxIndex) ref runs es.length hlinks xattr parent
     let head := s!"ok {toHexTok bytes} size={dirSizeOf runs} ref={ref} count={es.length}"
     if ino.ext then
       let idx := if ino.index.isEmpty then "-" else
